@@ -26,7 +26,7 @@ fn tid(hex: &str) -> Option<TraceId> {
     if hex.is_empty() {
         None
     } else {
-        Some(TraceId::from_u128(u128::from_str_radix(hex, 16).unwrap()).unwrap_or_else(|| tool_error("zero trace id in the table")))
+        Some(TraceId::from_u128(u128::from_str_radix(hex, 16).unwrap()).unwrap_or_else(|| panic!("TraceId::from_u128 rejects a non-zero id")))
     }
 }
 
@@ -34,7 +34,7 @@ fn sid(hex: &str) -> Option<SpanId> {
     if hex.is_empty() {
         None
     } else {
-        Some(SpanId::from_u64(u64::from_str_radix(hex, 16).unwrap()).unwrap_or_else(|| tool_error("zero span id in the table")))
+        Some(SpanId::from_u64(u64::from_str_radix(hex, 16).unwrap()).unwrap_or_else(|| panic!("SpanId::from_u64 rejects a non-zero id")))
     }
 }
 
@@ -93,7 +93,7 @@ impl Machine for M {
             "push_tp" => {
                 let tp = self.table.tp(&step["p"]);
                 // as a header arrives, every other time
-                let tp = if salt % 2 == 0 { tp } else { tp.to_string().parse().unwrap_or_else(|e| tool_error(&format!("own text does not parse: {e}"))) };
+                let tp = if salt % 2 == 0 { tp } else { tp.to_string().parse().unwrap_or_else(|e| panic!("the text of a traceparent does not parse back: {e}")) };
                 tp.push()
             }
             "push_ts" => self.tracestate(&step["s"], salt).push(),
